@@ -344,7 +344,21 @@ def prepare(ctx, coq_targets, drivers, allowed_axioms=()):
                                     "kind": "coqchk", "ok": bool(cok)})
             if not cok:
                 ctx.obligation_failure("coqchk", f"coqchk did not accept the closure of Properties/{prop}.vo or reports assumptions: {summ} {raw[-300:]}")
+        def up_to_date(target):
+            """make -q: is the target up to date with its dependencies (a failed build leaves older .vo files behind)"""
+            env = dict(os.environ)
+            env.pop("MAKEFLAGS", None)
+            return subprocess.run(["make", "-q", target], cwd=COQ, stdout=subprocess.DEVNULL, stderr=subprocess.DEVNULL, env=env).returncode == 0
         for d in drivers:
+            exvo = f"theories/Extract/Ex_{d}.vo"
+            if not ok and (TH / "Extract" / f"Ex_{d}.vo").exists() and not up_to_date(exvo):
+                # The model of THIS tree did not build (a translator refused the source, or a pin broke in a file the
+                # extraction depends on): the driver at hand was extracted from the model of an earlier tree.  The run is
+                # already a VIOLATION through the broken obligation; the earlier model is still used for the SEARCH (to
+                # attribute known findings and to point at disagreements), and the evidence says so.
+                ctx.extra.setdefault("stale_drivers", []).append(d)
+                ctx.obligation_failure(f"driver:{d}", "extraction is stale (a generated or model file it depends on did not build): "
+                                       "the search below uses the model extracted from the last tree that built")
             dok, msg = build_driver(d) if (TH / "Extract" / f"Ex_{d}.vo").exists() else (False, "extraction did not build")
             status["drivers"][d] = dok
             if not dok:
